@@ -23,7 +23,8 @@ EXPLANATION = (
     "(R5) the double-MAD estimator is mirror-symmetric: every left-side quantity has a right-side twin that is its mirror image, "
     "samples below / above the median take their own side's MAD and a sample on the median takes a value that is invariant "
     "under swapping the sides - a necessary condition of sign-equivariance for a < 0. "
-    "Not decided: affine equivariance and finiteness of the individual estimators' arithmetic - numeric clauses."
+    "Not decided: affine equivariance and finiteness of the individual estimators' arithmetic - numeric clauses. "
+    "Since F35, R3 also forbids an unqualified squeeze in the estimators (a lane axis of length 1 survives)."
 )
 S = "sigpyproc.core.stats"
 U = "sigpyproc.utils"
